@@ -966,3 +966,37 @@ pub fn v3_public_deterministic(sfx: &str, secret_raw: &[u8], m: &[u8], f: &[u8],
     }
     Some(t)
 }
+
+/// One-off fixture maker (`paseto-sim selftest grind-rsa-zeros`): for every RSA-4096 key of the sealing
+/// pool a random r (top bits 01, as k1.seal draws it) whose r^e mod n starts with two zero bytes
+/// (one seal in 65 536), searched on all cores.
+pub fn grind_rsa_zeros() -> serde_json::Value {
+    use num_bigint_dig::BigUint;
+    let mut out = serde_json::Map::new();
+    for idx in 0..crate::fixtures::V1_PKE_POOL {
+        let (Some(n), Some(e)) = (crate::fixtures::rsa4096_modulus(idx), crate::fixtures::rsa_exponent(Kind::PkePublic, idx)) else { continue };
+        let (n, e) = (BigUint::from_bytes_be(&n), BigUint::from_bytes_be(&e));
+        let found: std::sync::Mutex<Option<String>> = std::sync::Mutex::new(None);
+        let stop = std::sync::atomic::AtomicBool::new(false);
+        std::thread::scope(|sc| {
+            for t in 0..16u64 {
+                let (n, e, found, stop) = (&n, &e, &found, &stop);
+                sc.spawn(move || {
+                    let mut g = crate::prng::Rng::new(0x5eed_0000 + idx as u64 * 1000 + t);
+                    while !stop.load(std::sync::atomic::Ordering::Relaxed) {
+                        let mut r = g.bytes(512);
+                        r[0] = (r[0] & 0x7f) | 0x40;
+                        if BigUint::from_bytes_be(&r).modpow(e, n).bits() <= 4080 {
+                            *found.lock().unwrap() = Some(hex::encode(&r));
+                            stop.store(true, std::sync::atomic::Ordering::Relaxed);
+                        }
+                    }
+                });
+            }
+        });
+        if let Some(r) = found.into_inner().unwrap() {
+            out.insert(idx.to_string(), serde_json::Value::String(r));
+        }
+    }
+    serde_json::Value::Object(out)
+}
